@@ -322,7 +322,7 @@ def mk_bracket(name):
             Ev = [e for e in flat_events(r['events']) if e[0] == 'call']
             core = [e for e in Ev if re.search(r'(^|::)(start|end)_receivership$', e[1])]
             if len(core) != 1 or ('start_' in core[0][1]) != starting:
-                ob.structural(f'the shared {"start" if starting else "end"} logic is not called exactly once on an accepting path', 'core-missing', {'trace': [short(e[1]) for e in Ev][:40]}); continue
+                ob.shape(len([e for e in core if ('start_' in e[1]) == starting]), 1, f'the shared {"start" if starting else "end"} logic is not called exactly once on an accepting path', 'core-missing', {'trace': [short(e[1]) for e in Ev][:40]}); continue
             ob.prove(eng, r, [okc], zint(core[0][3].disc) == 0, 'error of the shared logic is propagated', role='core-error')
             ig = core[0][2][3]
             ob.prove(eng, r, [okc], ev(ig) == z3.BoolVal(B['ignore']), f'ignore_healthy == {B["ignore"]}', role='ignore-healthy')
@@ -339,7 +339,7 @@ def mk_bracket(name):
                 rk = z3.Int(f'a0.1*.{names.index(B["receiver"])}.key')
                 # the receiver is written before the shared logic (which is opaque and havocs the record): read it from the argument state is not possible, so require the write event order instead
                 vi = [e for e in Ev if re.search(r'(^|::)validate_instructions$', e[1])]
-                if len(vi) != 1: ob.structural('validate_instructions is not called exactly once on an accepting path', 'introspection-missing', {'trace': [short(e[1]) for e in Ev][:40]}); continue
+                if len(vi) != 1: ob.shape(len(vi), 1, 'validate_instructions is not called exactly once on an accepting path', 'introspection-missing', {'trace': [short(e[1]) for e in Ev][:40]}); continue
                 ob.prove(eng, r, [okc], zint(vi[0][3].disc) == 0, 'a rejected transaction shape rejects the instruction', role='introspection-error')
                 s_, e_ = const_bytes(eng, vi[0][2][2]), const_bytes(eng, vi[0][2][3])
                 ob.queries += 1
